@@ -71,6 +71,14 @@ func vid(v ssa.Value) string {
 		}
 		return "const:" + c.Value.String()
 	}
+	switch x := v.(type) {
+	case *ssa.Field:
+		// pure projection: two Field instructions of the same tuple/struct
+		// value denote the same thing (go/ssa performs no CSE)
+		return "field(" + vid(x.X) + ")." + fieldName(x.X.Type(), x.Field)
+	case *ssa.Extract:
+		return vid(x.Tuple) + "#" + fmt.Sprint(x.Index)
+	}
 	return fmt.Sprintf("%s@%p", v.Name(), v)
 }
 
